@@ -33,3 +33,34 @@ func VerifHarness_ConfigPackets() {
 	}
 	zz.Reach("config-packets")
 }
+
+// Known packs around the serverbound limit of 64: a backend (clientbound) may announce more, and every
+// one of them survives the round trip; from a client, up to 64 round-trip and more are refused.
+func VerifHarness_KnownPacksManyPacks() {
+	zz.MaxLen(2)
+	n := []int{63, 64, 65, 66, 130}[zz.Choose(5)]
+	c := &proto.PacketContext{Direction: proto.ClientBound, Protocol: 767}
+	if zz.Bool() {
+		c.Direction = proto.ServerBound
+	}
+	p := &KnownPacks{}
+	for i := 0; i < n; i++ {
+		p.Packs = append(p.Packs, KnownPack{Namespace: "minecraft", Id: "core", Version: string([]byte{'0' + byte(i%10)})})
+	}
+	p.Packs[0].Version, p.Packs[n-1].Id = zz.String(1), zz.String(1)
+	var a bytes.Buffer
+	zz.Assert(p.Encode(c, &a) == nil, "encoding known packs failed")
+	var back KnownPacks
+	rd := bytes.NewReader(a.Bytes())
+	err := back.Decode(c, rd)
+	if c.Direction == proto.ServerBound && n > 64 {
+		zz.Assert(err != nil, "a client announcing more than 64 known packs was not refused")
+		zz.Reach("too-many-from-client")
+		return
+	}
+	zz.Assert(err == nil && rd.Len() == 0, "the proxy cannot decode its own known-packs packet (or leaves bytes unread)")
+	zz.Assert(len(back.Packs) == n && back.Packs[0] == p.Packs[0] && back.Packs[n-1] == p.Packs[n-1], "known packs were lost or changed in the round trip")
+	var b bytes.Buffer
+	zz.Assert(back.Encode(c, &b) == nil && bytes.Equal(a.Bytes(), b.Bytes()), "re-encoding known packs gives different bytes")
+	zz.Reach("many-packs")
+}
